@@ -2,6 +2,7 @@
 package main
 
 import (
+	"runtime"
 	"context"
 	"fmt"
 	"math/rand"
@@ -84,7 +85,7 @@ func plan(tier string, seed int64) []driver.Case {
 			P: map[string]string{"kind": "chain", "chain": strings.Join(names, ">"), "script": sc.String(), "mode": []string{"unsafe", "safe"}[rng.Intn(2)]}})
 	}
 	// concurrent producers
-	targets := []string{"bare-safe", "bare-eventually", "serialize", "publish", "behavior", "replay", "async", "unicast", "chain"}
+	targets := []string{"bare-safe", "bare-eventually", "serialize", "publish", "behavior", "replay", "async", "unicast", "chain", "ctxcancel"}
 	for i := 0; i < nConc; i++ {
 		g := []int{2, 4, 8}[rng.Intn(3)]
 		var scs []string
@@ -331,7 +332,7 @@ func runConc(c driver.Case) driver.Result {
 	recs = append(recs, r)
 	var emissions []src.Emission
 	switch target {
-	case "bare-safe", "bare-eventually", "serialize", "chain":
+	case "bare-safe", "bare-eventually", "serialize", "chain", "ctxcancel":
 		m := &src.Multi{Name: "m", Scripts: scripts, Yield: c.Int("yield") > 0}
 		m.Mode = "safe"
 		if target == "bare-eventually" {
@@ -348,7 +349,22 @@ func runConc(c driver.Case) driver.Result {
 				obs = catalog.Get(n).Op(b)(obs)
 			}
 		}
-		sub := obs.Subscribe(rec.Raw[int](r))
+		var sub ro.Subscription
+		if target == "ctxcancel" {
+			// the error raised by ThrowOnContextCancel's watcher goroutine is one more producer: cancelled
+			// while the others are delivering, it must still be the last thing the observer gets
+			ctx, cancel := context.WithCancel(context.Background())
+			sub = ro.ThrowOnContextCancel[int]()(obs).SubscribeWithContext(ctx, rec.Raw[int](r))
+			go func() {
+				for i := 0; i < 1+len(scripts); i++ {
+					runtime.Gosched()
+				}
+				cancel()
+			}()
+			defer cancel()
+		} else {
+			sub = obs.Subscribe(rec.Raw[int](r))
+		}
 		if st, _, _ := quiesce.Call(m.Wait, 8*time.Second); st != quiesce.Returned {
 			// a producer is blocked inside the library for good: that is a hang, judged by C03/C06/C14, not a grammar verdict
 			return driver.Result{Verdict: driver.Inconclusive, Key: "producer-blocked-in-library", Msg: "a producer goroutine never returned from the library (hang: see C03/C14 findings) — chain " + c.Get("chain"), Dirty: true}
